@@ -283,6 +283,7 @@ func c04Replay(e *core.Env, data json.RawMessage) (bool, string) {
 func init() {
 	core.Register(&core.Check{
 		ID: "C04", Level: "model_checking", Run: c04Run, Replay: c04Replay,
+		Added:       "bookings of 0.5 and assertions -0.5 / 0.50; accruals whose per-period share is zero; accepted and rejected journal spread over three files under every loader schedule",
 		QuickBudget: 80 * time.Second, ThoroughBudget: 14 * time.Minute,
 		Rule: "every sequence (all file orders) of <= L lifecycle operations (open, close, booking +1/-1/0, one- and two-line assertions) over {asset, liability} x {CHF, USD} x 2 dates; " +
 			"each sequence prefix is a state of the operation tree; check, print and balance are run on each; non-trivial = at least two operations",
